@@ -25,16 +25,6 @@ Definition c21_statement : Prop :=
 Lemma W_all_total : world_total W_all.
 Proof. intros f p. reflexivity. Qed.
 
-Lemma c21_refuted_bytes : ~ c21_statement.
-Proof.
-  intros H.
-  specialize (H W_all (TBase CBytes) (TList (TBase CInt)) (VList [VInt 300]) W_all_total eq_refl eq_refl
-                ltac:(discriminate) ltac:(vm_compute; reflexivity)).
-  assert (conforms live (TList (TBase CInt)) (VList [VInt 300])) as Hc.
-  { exists [VInt 300]. split; [reflexivity|]. constructor; [vm_compute; reflexivity|constructor]. }
-  specialize (H Hc eq_refl ETypeError ltac:(vm_compute; reflexivity)). discriminate.
-Qed.
-
 Lemma c21_refuted_unhashable : ~ c21_statement.
 Proof.
   intros H.
@@ -52,4 +42,8 @@ Example ex_c21 :
   coerce live W_all false (TTupleVar (TBase CFloat)) (VList [VInt 1; VBool true]) = Ok (VTuple [VFloat 1; VFloat 1]).
 Proof. split; vm_compute; reflexivity. Qed.
 Example ex_c21_rejected : check_type live (TList (TBase CInt)) (TList (TBase CStr)) = Err ETypeError.
+Proof. vm_compute. reflexivity. Qed.
+
+(* finding F21a is repaired: a collection type is no longer accepted into bytes *)
+Example ex_c21_bytes : check_type live (TBase CBytes) (TList (TBase CInt)) = Err ETypeError.
 Proof. vm_compute. reflexivity. Qed.
